@@ -59,6 +59,8 @@ class Cov(np.ndarray):
     def copy(self, frame=None):
         """"""
         new = self.__class__(self.orb, self.base, frame=self.frame)
+        # self.orb follows the covariance: keep the frame the state had at attachment
+        new._orb_frame = self._orb_frame
         if frame is not None:
             new.frame = frame
         return new
@@ -119,9 +121,14 @@ class Cov(np.ndarray):
         # Second we compute the matrix m2 which represents the
         # rotation from the parent frame to the target frame
 
+        # The local orbital frames are defined by the state as it was attached,
+        # not by self.orb, which follows the covariance from frame to frame
+        if self.frame in _local or frame in _local:
+            orb = self.orb.copy(frame=self._orb_frame)
+
         # Handle previous frame to parent frame conversion
         if self.frame in ("TNW", "QSW"):
-            m1 = to_local(self.frame, self.orb).T
+            m1 = to_local(self.frame, orb).T
         elif self.frame != self._orb_frame:
             m1 = self.frame.orientation.convert_to(
                 self.orb.date, self._orb_frame.orientation
@@ -131,7 +138,7 @@ class Cov(np.ndarray):
 
         # handle parent frame to target frame conversion
         if frame in ("TNW", "QSW"):
-            m2 = to_local(frame, self.orb)
+            m2 = to_local(frame, orb)
         elif self._orb_frame != frame:
             m2 = self._orb_frame.orientation.convert_to(
                 self.orb.date, frame.orientation
